@@ -1,0 +1,462 @@
+//! Verification hooks, compiled only with `--cfg multiqueue2_verif`.
+//!
+//! Drop-in shims for the synchronisation primitives the queue uses. Each shim
+//! reports the operation to a runtime installed for the current thread (a
+//! scheduling point before the operation, the observed value after it) and then
+//! performs the real operation. Without a runtime on the current thread the shims
+//! are plain pass-throughs.
+#![allow(dead_code)]
+
+use std::cell::Cell;
+use std::ops::{Deref, DerefMut};
+use std::sync::atomic::Ordering;
+
+#[derive(Clone, Copy, PartialEq, Eq, Debug)]
+pub enum OpKind {
+    Load,
+    Store,
+    Cas,
+    FetchAdd,
+    FetchSub,
+    FetchOr,
+    FetchAnd,
+    Fence,
+    Yield,
+    Sleep,
+    MutexLock,
+    MutexTryLock,
+    MutexUnlock,
+    CvWait,
+    CvWake,
+    CvNotifyAll,
+}
+
+pub trait Runtime: Sync {
+    /// Scheduling point: returns when the calling thread may perform the operation.
+    /// For `MutexLock` and `CvWake` the runtime must not return before the mutex
+    /// (address in `addr` resp. `arg`) is free according to the `after` reports.
+    fn before(&self, kind: OpKind, addr: usize, arg: usize);
+    /// Effect of the operation: value read / stored / previous value, success flag
+    fn after(&self, kind: OpKind, addr: usize, val: usize, ok: bool);
+    fn on_alloc(&self, addr: usize, bytes: usize, ty: &'static str);
+    /// Returns true when the block must be kept (quarantined) instead of freed
+    fn on_dealloc(&self, addr: usize, bytes: usize) -> bool;
+}
+
+thread_local! {
+    static RT: Cell<Option<&'static dyn Runtime>> = Cell::new(None);
+}
+
+/// Installs (or removes) the runtime for the current thread
+pub fn set_runtime(rt: Option<&'static dyn Runtime>) {
+    RT.with(|c| c.set(rt));
+}
+
+#[inline]
+fn rt() -> Option<&'static dyn Runtime> {
+    RT.try_with(|c| c.get()).unwrap_or(None)
+}
+
+pub fn on_alloc(addr: usize, bytes: usize, ty: &'static str) {
+    if let Some(r) = rt() {
+        r.on_alloc(addr, bytes, ty);
+    }
+}
+
+pub fn on_dealloc(addr: usize, bytes: usize) -> bool {
+    match rt() {
+        Some(r) => r.on_dealloc(addr, bytes),
+        None => false,
+    }
+}
+
+#[repr(transparent)]
+pub struct AtomicUsize {
+    v: std::sync::atomic::AtomicUsize,
+}
+
+impl Default for AtomicUsize {
+    fn default() -> AtomicUsize {
+        AtomicUsize::new(0)
+    }
+}
+
+impl AtomicUsize {
+    pub const fn new(v: usize) -> AtomicUsize {
+        AtomicUsize {
+            v: std::sync::atomic::AtomicUsize::new(v),
+        }
+    }
+
+    #[inline]
+    pub fn verif_addr(&self) -> usize {
+        self as *const AtomicUsize as usize
+    }
+
+    #[inline]
+    pub fn load(&self, ord: Ordering) -> usize {
+        match rt() {
+            None => self.v.load(ord),
+            Some(r) => {
+                r.before(OpKind::Load, self.verif_addr(), 0);
+                let v = self.v.load(ord);
+                r.after(OpKind::Load, self.verif_addr(), v, true);
+                v
+            }
+        }
+    }
+
+    #[inline]
+    pub fn store(&self, val: usize, ord: Ordering) {
+        match rt() {
+            None => self.v.store(val, ord),
+            Some(r) => {
+                r.before(OpKind::Store, self.verif_addr(), val);
+                self.v.store(val, ord);
+                r.after(OpKind::Store, self.verif_addr(), val, true);
+            }
+        }
+    }
+
+    #[inline]
+    pub fn compare_exchange(
+        &self,
+        cur: usize,
+        new: usize,
+        s: Ordering,
+        f: Ordering,
+    ) -> Result<usize, usize> {
+        match rt() {
+            None => self.v.compare_exchange(cur, new, s, f),
+            Some(r) => {
+                r.before(OpKind::Cas, self.verif_addr(), new);
+                let res = self.v.compare_exchange(cur, new, s, f);
+                match res {
+                    Ok(v) => r.after(OpKind::Cas, self.verif_addr(), v, true),
+                    Err(v) => r.after(OpKind::Cas, self.verif_addr(), v, false),
+                }
+                res
+            }
+        }
+    }
+
+    /// Under a runtime the weak form never fails spuriously
+    #[inline]
+    pub fn compare_exchange_weak(
+        &self,
+        cur: usize,
+        new: usize,
+        s: Ordering,
+        f: Ordering,
+    ) -> Result<usize, usize> {
+        match rt() {
+            None => self.v.compare_exchange_weak(cur, new, s, f),
+            Some(_) => self.compare_exchange(cur, new, s, f),
+        }
+    }
+
+    #[inline]
+    fn rmw<F: FnOnce(&std::sync::atomic::AtomicUsize) -> usize>(
+        &self,
+        kind: OpKind,
+        arg: usize,
+        f: F,
+    ) -> usize {
+        match rt() {
+            None => f(&self.v),
+            Some(r) => {
+                r.before(kind, self.verif_addr(), arg);
+                let prev = f(&self.v);
+                r.after(kind, self.verif_addr(), prev, true);
+                prev
+            }
+        }
+    }
+
+    #[inline]
+    pub fn fetch_add(&self, val: usize, ord: Ordering) -> usize {
+        self.rmw(OpKind::FetchAdd, val, |a| a.fetch_add(val, ord))
+    }
+
+    #[inline]
+    pub fn fetch_sub(&self, val: usize, ord: Ordering) -> usize {
+        self.rmw(OpKind::FetchSub, val, |a| a.fetch_sub(val, ord))
+    }
+
+    #[inline]
+    pub fn fetch_or(&self, val: usize, ord: Ordering) -> usize {
+        self.rmw(OpKind::FetchOr, val, |a| a.fetch_or(val, ord))
+    }
+
+    #[inline]
+    pub fn fetch_and(&self, val: usize, ord: Ordering) -> usize {
+        self.rmw(OpKind::FetchAnd, val, |a| a.fetch_and(val, ord))
+    }
+}
+
+#[repr(transparent)]
+pub struct AtomicPtr<T> {
+    v: std::sync::atomic::AtomicPtr<T>,
+}
+
+impl<T> AtomicPtr<T> {
+    pub fn new(p: *mut T) -> AtomicPtr<T> {
+        AtomicPtr {
+            v: std::sync::atomic::AtomicPtr::new(p),
+        }
+    }
+
+    #[inline]
+    pub fn verif_addr(&self) -> usize {
+        self as *const AtomicPtr<T> as usize
+    }
+
+    #[inline]
+    pub fn load(&self, ord: Ordering) -> *mut T {
+        match rt() {
+            None => self.v.load(ord),
+            Some(r) => {
+                r.before(OpKind::Load, self.verif_addr(), 0);
+                let v = self.v.load(ord);
+                r.after(OpKind::Load, self.verif_addr(), v as usize, true);
+                v
+            }
+        }
+    }
+
+    #[inline]
+    pub fn compare_exchange(
+        &self,
+        cur: *mut T,
+        new: *mut T,
+        s: Ordering,
+        f: Ordering,
+    ) -> Result<*mut T, *mut T> {
+        match rt() {
+            None => self.v.compare_exchange(cur, new, s, f),
+            Some(r) => {
+                r.before(OpKind::Cas, self.verif_addr(), new as usize);
+                let res = self.v.compare_exchange(cur, new, s, f);
+                match res {
+                    Ok(v) => r.after(OpKind::Cas, self.verif_addr(), v as usize, true),
+                    Err(v) => r.after(OpKind::Cas, self.verif_addr(), v as usize, false),
+                }
+                res
+            }
+        }
+    }
+}
+
+#[inline]
+pub fn fence(ord: Ordering) {
+    match rt() {
+        None => std::sync::atomic::fence(ord),
+        Some(r) => {
+            r.before(OpKind::Fence, 0, 0);
+            std::sync::atomic::fence(ord);
+            r.after(OpKind::Fence, 0, 0, true);
+        }
+    }
+}
+
+#[inline]
+pub fn yield_now() {
+    match rt() {
+        None => std::thread::yield_now(),
+        Some(r) => {
+            r.before(OpKind::Yield, 0, 0);
+            r.after(OpKind::Yield, 0, 0, true);
+        }
+    }
+}
+
+pub fn sleep(d: std::time::Duration) {
+    match rt() {
+        None => std::thread::sleep(d),
+        Some(r) => {
+            r.before(OpKind::Sleep, 0, d.as_millis() as usize);
+            r.after(OpKind::Sleep, 0, 0, true);
+        }
+    }
+}
+
+/// Shim of the `parking_lot` items the crate uses; also backs the `std` mutex shim
+pub mod parking_lot {
+    use super::*;
+
+    pub struct Mutex<T> {
+        m: ::parking_lot::Mutex<T>,
+    }
+
+    pub struct MutexGuard<'a, T> {
+        g: Option<::parking_lot::MutexGuard<'a, T>>,
+        addr: usize,
+    }
+
+    #[derive(Default)]
+    pub struct Condvar {
+        c: ::parking_lot::Condvar,
+    }
+
+    impl<T: Default> Default for Mutex<T> {
+        fn default() -> Mutex<T> {
+            Mutex::new(T::default())
+        }
+    }
+
+    impl<T> Mutex<T> {
+        pub fn new(v: T) -> Mutex<T> {
+            Mutex {
+                m: ::parking_lot::Mutex::new(v),
+            }
+        }
+
+        #[inline]
+        pub fn verif_addr(&self) -> usize {
+            self as *const Mutex<T> as usize
+        }
+
+        pub fn lock(&self) -> MutexGuard<'_, T> {
+            let addr = self.verif_addr();
+            match rt() {
+                None => MutexGuard {
+                    g: Some(self.m.lock()),
+                    addr,
+                },
+                Some(r) => {
+                    // the runtime returns only when the mutex is free
+                    r.before(OpKind::MutexLock, addr, 0);
+                    let g = self
+                        .m
+                        .try_lock()
+                        .expect("verif runtime scheduled a lock on a held mutex");
+                    r.after(OpKind::MutexLock, addr, 0, true);
+                    MutexGuard { g: Some(g), addr }
+                }
+            }
+        }
+
+        pub fn try_lock(&self) -> Option<MutexGuard<'_, T>> {
+            let addr = self.verif_addr();
+            match rt() {
+                None => self.m.try_lock().map(|g| MutexGuard { g: Some(g), addr }),
+                Some(r) => {
+                    r.before(OpKind::MutexTryLock, addr, 0);
+                    let g = self.m.try_lock();
+                    r.after(OpKind::MutexTryLock, addr, 0, g.is_some());
+                    g.map(|g| MutexGuard { g: Some(g), addr })
+                }
+            }
+        }
+    }
+
+    impl<'a, T> Deref for MutexGuard<'a, T> {
+        type Target = T;
+        fn deref(&self) -> &T {
+            self.g.as_ref().unwrap()
+        }
+    }
+
+    impl<'a, T> DerefMut for MutexGuard<'a, T> {
+        fn deref_mut(&mut self) -> &mut T {
+            self.g.as_mut().unwrap()
+        }
+    }
+
+    impl<'a, T> Drop for MutexGuard<'a, T> {
+        fn drop(&mut self) {
+            match rt() {
+                None => drop(self.g.take()),
+                Some(r) => {
+                    r.before(OpKind::MutexUnlock, self.addr, 0);
+                    drop(self.g.take());
+                    r.after(OpKind::MutexUnlock, self.addr, 0, true);
+                }
+            }
+        }
+    }
+
+    impl Condvar {
+        pub fn new() -> Condvar {
+            Condvar {
+                c: ::parking_lot::Condvar::new(),
+            }
+        }
+
+        #[inline]
+        pub fn verif_addr(&self) -> usize {
+            self as *const Condvar as usize
+        }
+
+        pub fn wait<T>(&self, guard: &mut MutexGuard<'_, T>) {
+            let cv = self.verif_addr();
+            match rt() {
+                None => self.c.wait(guard.g.as_mut().unwrap()),
+                Some(r) => {
+                    let maddr = guard.addr;
+                    // one step: release the mutex and join the wait set
+                    r.before(OpKind::CvWait, cv, maddr);
+                    ::parking_lot::MutexGuard::unlocked(guard.g.as_mut().unwrap(), || {
+                        r.after(OpKind::CvWait, cv, maddr, true);
+                        // second step: enabled once notified and the mutex is free
+                        r.before(OpKind::CvWake, cv, maddr);
+                    });
+                    r.after(OpKind::CvWake, cv, maddr, true);
+                }
+            }
+        }
+
+        pub fn notify_all(&self) {
+            match rt() {
+                None => {
+                    self.c.notify_all();
+                }
+                Some(r) => {
+                    r.before(OpKind::CvNotifyAll, self.verif_addr(), 0);
+                    self.c.notify_all();
+                    r.after(OpKind::CvNotifyAll, self.verif_addr(), 0, true);
+                }
+            }
+        }
+    }
+}
+
+/// Shim of `std::sync::Mutex` as used by the memory manager (no poisoning)
+pub struct Mutex<T> {
+    m: parking_lot::Mutex<T>,
+}
+
+pub type MutexGuard<'a, T> = parking_lot::MutexGuard<'a, T>;
+
+impl<T> Mutex<T> {
+    pub fn new(v: T) -> Mutex<T> {
+        Mutex {
+            m: parking_lot::Mutex::new(v),
+        }
+    }
+
+    #[inline]
+    pub fn verif_addr(&self) -> usize {
+        self.m.verif_addr()
+    }
+
+    pub fn lock(&self) -> Result<MutexGuard<'_, T>, ()> {
+        Ok(self.m.lock())
+    }
+
+    pub fn try_lock(&self) -> Result<MutexGuard<'_, T>, ()> {
+        self.m.try_lock().ok_or(())
+    }
+}
+
+/// One named location of a queue, for the harness to classify addresses
+#[derive(Clone, Debug)]
+pub struct Loc {
+    pub name: &'static str,
+    pub index: usize,
+    pub addr: usize,
+}
+
+pub fn loc(name: &'static str, index: usize, addr: usize) -> Loc {
+    Loc { name, index, addr }
+}
